@@ -52,6 +52,9 @@ def context_urls() -> list[bytes]:
             for tail in (b"", b"/more", b"%42c", b"/%7e", b"?q=%41", b"#%2F"):
                 out.append(b"call " + opener + head + closer + tail + b" end")
                 out.append(opener + head + b"%7E" + closer + tail)
+    for opener, closer in ((b"'", b"'"), (b"(", b")")):      # punctuation right before the closing character, more URL characters behind it
+        for last in (b".", b",", b";", b")", b"'", b"/", b"..", b"/v1."):
+            out += [b"x = " + opener + b"http://example.com/dl" + last + closer + b"+name", opener + b"https://evil-site.net/a%41" + last + closer + b"/more.exe"]
     for opener, closer in ((b"(", b")"), (b"'", b"'")):      # the closing character sits before the host
         out += [opener + b"http://" + closer + b"@evil.example.com/x", b"call " + opener + b"ftp://u" + closer + b":p@host.example.org/ end",
                 opener + b"https://" + closer, b"fetch" + opener + b"http://" + closer + b"@evil.example.com/payload) and run"]
@@ -116,7 +119,7 @@ def win_lattice(rng: random.Random, tier: str) -> list[bytes]:
 
 
 def mini_pe(nsec: int, trailing: int, rng: random.Random, order: str = "file", bss: bool = False, dos_fill: int = 0,
-            e_lfanew: int = 0x80) -> bytes:
+            e_lfanew: int = 0x80, nrva: int = 16) -> bytes:
     """A structurally valid PE file: DOS header, PE signature, COFF header, optional header, section table, raw data."""
     dos = b"MZ" + bytes([dos_fill]) * 0x3A + struct.pack("<I", e_lfanew)       # (the DOS header fields are free-form for carving)
     dos += bytes(e_lfanew - len(dos))
@@ -124,7 +127,11 @@ def mini_pe(nsec: int, trailing: int, rng: random.Random, order: str = "file", b
     coff = struct.pack("<HHIIIHH", 0x14C, nsec, 0, 0, 0, opt_size, 0x0102)
     opt = struct.pack("<H", 0x10B) + bytes(opt_size - 2)
     opt = opt[:0x20] + struct.pack("<II", 0x1000, 0x200) + opt[0x28:]          # SectionAlignment, FileAlignment
-    opt = opt[:0x5C] + struct.pack("<I", 16) + opt[0x60:]                       # NumberOfRvaAndSizes
+    opt = opt[:0x5C] + struct.pack("<I", nrva) + opt[0x60:]                     # NumberOfRvaAndSizes
+    if nrva < 16:                      # a "tiny" PE: the optional header ends with the data directories it declares
+        opt_size = 0x60 + 8 * nrva
+        opt = opt[:opt_size]
+        coff = struct.pack("<HHIIIHH", 0x14C, nsec, 0, 0, 0, opt_size, 0x0102)
     hdr_len = e_lfanew + 4 + len(coff) + opt_size + 40 * nsec
     raw_start = (hdr_len + 0x1FF) // 0x200 * 0x200
     entries = []
@@ -221,6 +228,8 @@ def instances(rng: random.Random, tier: str) -> list[dict]:
     # headers that do not fit in the first few hundred bytes: a long DOS stub, a long section table
     for lfanew, nsec in ((0x40, 1), (0x100, 2), (0x300, 1), (0x3F0, 2), (0x400, 1), (0x1000, 2), (0x80, 17), (0x80, 24), (0x200, 40)):
         add("pe", mini_pe(nsec, 0, rng, e_lfanew=lfanew), trailing=8)
+    for nrva in (0, 1, 4, 5, 15):      # fewer data directories than the usual sixteen
+        add("pe", mini_pe(2, 0, rng, nrva=nrva), trailing=8)
     return out
 
 
